@@ -98,7 +98,7 @@ async fn one_config(ctx: &Ctx, out: &mut Outcome, ci: usize, l1: usize, l2: Opti
     let nreaders = 1 + (hash_str(&format!("{}{}", ci, ctx.seed)) % 16) as usize;
     let per_reader = reads / nreaders as u64;
     let violations: Arc<Mutex<Vec<(String, String, serde_json::Value)>>> = Arc::new(Mutex::new(vec![]));
-    let stats: Arc<Mutex<(u64, u64, u64, u64, Vec<u64>)>> = Arc::new(Mutex::new((0, 0, 0, 0, vec![]))); // whole, ranged, conditional, missing, nontrivial hashes
+    let stats: Arc<Mutex<(u64, u64, u64, u64, Vec<u64>, u64)>> = Arc::new(Mutex::new((0, 0, 0, 0, vec![], 0))); // whole, ranged, conditional, missing, nontrivial hashes
     // writer: keeps adding new objects (write-once)
     let w_inner = inner.clone();
     let w_written = written.clone();
@@ -128,6 +128,28 @@ async fn one_config(ctx: &Ctx, out: &mut Outcome, ci: usize, l1: usize, l2: Opti
         let mut rng = Rng::derive(ctx.seed, "C16", ctx.shard * 100 + ci as u64, r as u64);
         hs.push(tokio::spawn(async move {
             for opi in 0..per_reader {
+                // a read of a key the writer has not reached yet (it fails, or - if the writer was faster - returns
+                // the object); the same key is read again later through the ordinary picks, when it does exist
+                if rng.chance(1, 12) {
+                    let next = written.lock().len() + rng.usize(3);
+                    if next < total_keys {
+                        let key = format!("t/data/cfg{}/chunk_{}_{}_{}.parquet", ci, seed, shard, next);
+                        let n = size_of(&key, &sizes);
+                        match store.get(&Path::from(key.as_str())).await {
+                            Ok(g) => {
+                                if let Ok(b) = g.bytes().await {
+                                    if b.as_ref() != &prf(&key, n)[..] {
+                                        violations.lock().push(("C16/wrong-bytes".into(), format!("early get of {} returned {} bytes that differ from the backing store", key, b.len()), json!({"key": key, "op": "get(early)", "l1": l1, "l2": l2})));
+                                    }
+                                }
+                            }
+                            Err(_) => {
+                                stats.lock().5 += 1;
+                            }
+                        }
+                        continue;
+                    }
+                }
                 let key = {
                     let w = written.lock();
                     if w.is_empty() || rng.chance(1, 25) {
@@ -246,6 +268,7 @@ async fn one_config(ctx: &Ctx, out: &mut Outcome, ci: usize, l1: usize, l2: Opti
     let st = stats.lock().clone();
     out.evaluations += st.0 + st.1 + st.2 + st.3;
     out.count("reads.whole", st.0);
+    out.count("reads.before_the_object_existed", st.5);
     out.count("reads.ranged", st.1);
     out.count("reads.get_opts", st.2);
     out.count("reads.missing_key", st.3);
